@@ -28,21 +28,22 @@ theorem first_error_aborts {D E : Type} (pre : List (RMw D E)) (m : RMw D E) (po
     (runLoop (pre ++ m :: post) d).1 = pre.map (·.id) ++ [m.id] ∧ (runLoop (pre ++ m :: post) d).2 = .error e :=
   runLoop_first_failure pre m post d hpre e hm
 
-theorem same_on_success_and_failure {D E : Type} (scrub : RMw D E) (user : List (RMw D E)) (result : D) (e₁ e₂ : Option E) :
+theorem same_on_success_and_failure {D E : Type} (scrub : RMw D E) (user : List (RMw D E)) (result : D) (e₁ e₂ : List E) :
     (execute scrub user result e₁).1 = (execute scrub user result e₂).1 :=
   execute_log_independent_of_exec_error scrub user result e₁ e₂
 
-theorem scrubber_runs_first {D E : Type} (scrub : RMw D E) (user : List (RMw D E)) (result : D) (ee : Option E) :
+theorem scrubber_runs_first {D E : Type} (scrub : RMw D E) (user : List (RMw D E)) (result : D) (ee : List E) :
     (execute scrub user result ee).1.head? = some scrub.id := execute_scrub_first scrub user result ee
 
-theorem data_left_is_data_returned {D E : Type} (scrub : RMw D E) (user : List (RMw D E)) (result d : D) (ee : Option E)
+theorem data_left_is_data_returned {D E : Type} (scrub : RMw D E) (user : List (RMw D E)) (result d : D) (ee : List E)
     (h : (runLoop (scrub :: user) result).2 = .ok d) : (execute scrub user result ee).2 = (some d, ee) :=
   execute_returns_middleware_data scrub user result d ee h
 
-/-- a failing middleware leaves no data (whatever the executor had reported) -/
+/-- a failing middleware aborts the request: no data, and its error is returned — after the errors the execution had
+    reported, which it does not hide -/
 theorem a_failing_middleware_leaves_no_data {D E : Type} (scrub : RMw D E) (user : List (RMw D E)) (result : D)
-    (ee : Option E) (e : E) (h : (runLoop (scrub :: user) result).2 = .error e) :
-    (execute scrub user result ee).2 = (none, some e) := execute_error_no_data scrub user result ee e h
+    (ee : List E) (e : E) (h : (runLoop (scrub :: user) result).2 = .error e) :
+    (execute scrub user result ee).2 = (none, ee ++ [e]) := execute_error_no_data scrub user result ee e h
 
 /-- **`New` (model `Nw`, tied by L2.new-options): the middlewares of all `WithMiddlewares` options, in the order
     given, split into response and request middlewares** — two options amount to one with the lists joined, and
@@ -65,6 +66,6 @@ example : Nw.build [.middlewares [⟨true, 1⟩, ⟨false, 2⟩], .planner 3, .m
 
 /-- non-vacuity: scrubber 0, then 1 (ok), 2 (fails), 3 (never runs) -/
 example : (execute (D := Nat) (E := String) ⟨0, fun d => .ok (d + 1)⟩
-    [⟨1, fun d => .ok (d * 2)⟩, ⟨2, fun _ => .error "no"⟩, ⟨3, fun d => .ok d⟩] 5 none).1 = [0, 1, 2] := by decide
+    [⟨1, fun d => .ok (d * 2)⟩, ⟨2, fun _ => .error "no"⟩, ⟨3, fun d => .ok d⟩] 5 []).1 = [0, 1, 2] := by decide
 
 end Props.C19
